@@ -47,6 +47,8 @@ BASIC = [('bool', '_Bool'), ('char8_t', 'unsigned char'), ('char16_t', 'uint16_t
 TYPE_ALIASES = {
     'ST::char_buffer': 'ST::buffer<char>', 'ST::wchar_buffer': 'ST::buffer<wchar_t>',
     'ST::utf16_buffer': 'ST::buffer<char16_t>', 'ST::utf32_buffer': 'ST::buffer<char32_t>',
+    'std::vector<string>': 'std::vector<ST::string>', 'std::vector<ST::string, std::allocator<ST::string>>': 'std::vector<ST::string>',
+    'std::vector<ST::string, std::allocator<ST::string> >': 'std::vector<ST::string>',
     'char_buffer': 'ST::buffer<char>', 'wchar_buffer': 'ST::buffer<wchar_t>',
     'utf16_buffer': 'ST::buffer<char16_t>', 'utf32_buffer': 'ST::buffer<char32_t>',
 }
@@ -179,6 +181,7 @@ def abbrev(pt):
     t = re.sub(r'\W+', '', t)
     return pre + 'p' * n + t
 
+VECQ = 'std::vector<ST::string>'
 NOTHROW_EXTERNALS = ('copy', 'move', 'assign', 'compare', 'find', 'length', 'lt', 'eq')
 LIBC = ('strtol', 'strtoll', 'strtoul', 'strtoull', 'strtod', 'strtof', 'snprintf', 'fwrite', 'fputc', 'abort', 'fprintf', 'memcpy', 'memset', 'memchr', 'strlen')
 
@@ -305,7 +308,7 @@ class Index:
                 if self.may_throw(rid, stack): return True
             elif 'noexcept' not in rty and rname not in NOTHROW_EXTERNALS + LIBC + ('min', 'max', 'abs', 'swap', 'move', 'forward', 'size', 'data', 'c_str', 'length', 'empty', 'begin', 'end'):
                 return True
-        if k == 'CXXConstructExpr':
+        if k in ('CXXConstructExpr', 'CXXTemporaryObjectExpr'):
             # constructor resolved by class + signature
             t = n.get('type', {}).get('desugaredQualType') or n.get('type', {}).get('qualType', '')
             key = norm_class(t)
@@ -333,6 +336,25 @@ class Index:
                     qq = q + '::' + o['name']
                     self.funcs[o['id']] = (qq, o, q)
                     self.byname.setdefault(qq, []).insert(0, o['id'])
+    def add_foreign_vector(self):
+        """std::vector<ST::string> (split / tokenize): an EXTERNAL container.  It is represented by a synthetic record with two ghost
+        fields and four body-less members (default ctor, move ctor, dtor, push); their contracts are stubs in the harness (trusted:
+        'appends one element, strong guarantee').  emplace_back / push_back calls are mapped to push by Emitter.vector_call."""
+        q = VECQ
+        def fn(kind, name, ty, fid):
+            _, ps, _ = split_fn_type(ty)
+            n = {'id': fid, 'kind': kind, 'name': name, 'type': {'qualType': ty}, 'synthetic': True,
+                 'inner': [{'id': '%s_p%d' % (fid, i), 'kind': 'ParmVarDecl', 'name': 'a%d' % i, 'type': {'qualType': p}} for i, p in enumerate(ps)]}
+            self.funcs[fid] = (q + '::' + name, n, q); self.byname.setdefault(q + '::' + name, []).append(fid); return n
+        members = [fn('CXXConstructorDecl', 'vector', 'void () noexcept', 'synth_vec_ctor_default'),
+                   fn('CXXConstructorDecl', 'vector', 'void (std::vector<ST::string> &&) noexcept', 'synth_vec_ctor_move'),
+                   fn('CXXDestructorDecl', '~vector', 'void () noexcept', 'synth_vec_dtor'),
+                   fn('CXXMethodDecl', 'push', 'void (ST::string &&)', 'synth_vec_push')]
+        fields = [{'id': 'synth_vec_f1', 'kind': 'FieldDecl', 'name': 'count', 'type': {'qualType': 'unsigned long'}},
+                  {'id': 'synth_vec_f2', 'kind': 'FieldDecl', 'name': 'owned', 'type': {'qualType': 'long'}}]
+        self.records[q] = {'id': 'synth_vec', 'kind': 'CXXRecordDecl', 'name': 'vector', 'completeDefinition': True, 'inner': fields + members, 'synthetic': True}
+        self.cnames.update({'synth_vec_ctor_default': 'std_vector_ST_string_ctor__v', 'synth_vec_ctor_move': 'std_vector_ST_string_ctor__xvector',
+                            'synth_vec_dtor': 'std_vector_ST_string_dtor', 'synth_vec_push': 'std_vector_ST_string_push'})
     def definition_of(self, fid):
         """follow a declaration to the definition with a body (same qualified name + same type)"""
         if fid in self.funcs and self.has_body(fid): return fid
@@ -504,6 +526,11 @@ class Emitter:
         else:
             raise Unsupported('class prvalue of kind ' + k)
     def ctor_lookup(self, ce, clsq):
+        if clsq == VECQ:
+            na = len(ce.get('inner', []))
+            if na == 0: return 'synth_vec_ctor_default'
+            if na == 1 and ce['inner'][0].get('valueCategory') == 'xvalue': return 'synth_vec_ctor_move'
+            raise Unsupported('std::vector<ST::string> constructor with %d arguments' % na)
         sig = ce['ctorType']['qualType']
         short = clsq.split('::')[-1].split('<')[0]
         ids = self.ix.byname.get(clsq + '::' + short, [])
@@ -760,6 +787,7 @@ class Emitter:
         if callee['kind'] == 'MemberExpr':
             obj = callee['inner'][0]
             mid = callee.get('referencedMemberDecl')
+            if mid not in self.ix.funcs and self.is_class_type(self.qt(obj) or '') == VECQ: return self.vector_call(callee, obj, args)
             if mid not in self.ix.funcs: raise Unsupported('member call to unknown ' + callee.get('name', '?'))
             fid = mid
             o = self.e(obj)
@@ -798,6 +826,34 @@ class Emitter:
             if ret_target is None: raise Unsupported('class-typed call result without target')
             pre = [ret_target] + pre
         return '%s(%s)' % (self.fname(fid), ', '.join(pre + a))
+    def vector_call(self, callee, obj, args):
+        """result.emplace_back(args...) / result.push_back(string&&) on std::vector<ST::string>: construct the new element as a
+        temporary ST::string (the constructor std::allocator_traits::construct would select: one ST::string&& argument = move,
+        (const char*, integral, utf_validation_t) = string(const char*, size_t, utf_validation_t)), then hand it to the push stub."""
+        nm = callee.get('name')
+        if nm not in ('emplace_back', 'push_back'): raise Unsupported('std::vector member ' + str(nm))
+        v = self.e(obj); vaddr = v[2:-1] if (v.startswith('(*') and v.endswith(')') and self.balanced(v[2:-1])) else '&' + v
+        SQ = 'ST::string'
+        if len(args) == 1 and self.is_class_type(self.qt(args[0])) == SQ:
+            a = self.e(args[0])
+            el = a[2:-1] if (a.startswith('(*') and a.endswith(')') and self.balanced(a[2:-1])) else '&' + a
+        elif len(args) == 3 and nm == 'emplace_back':
+            fid = None
+            for i in self.ix.byname.get('ST::string::string', []):
+                _, ps, _ = split_fn_type(self.ix.funcs[i][1]['type']['qualType'])
+                if len(ps) == 3 and ps[0].replace(' ', '') == 'constchar*' and ps[1] in ('size_t', 'unsigned long', 'std::size_t') and 'utf_validation_t' in ps[2]: fid = i
+            if fid is None: raise Unsupported('emplace_back: no ST::string(const char*, size_t, utf_validation_t)')
+            t = self.newtmp()
+            self.pre.append('struct ST_string %s;' % t)
+            self.pre.append('%s(&%s, %s, (unsigned long)(%s), %s);' % (self.fname(fid), t, self.e(args[0]), self.e(args[1]), self.e(args[2])))
+            if self.ix.may_throw(fid): self.pre.append(self.exc_check())
+            self.temps.append(('&' + t, SQ))
+            el = '&' + t
+        else:
+            raise Unsupported('std::vector::%s with %d arguments' % (nm, len(args)))
+        self.need('synth_vec_push')
+        self.post_call_check = True
+        return 'std_vector_ST_string_push(%s, %s)' % (vaddr, el)
     def implicit_assign(self, selfarg, arg, clsq, fn):
         src = self.e(arg); out = []
         move = '&&' in fn['type']['qualType']
@@ -1309,6 +1365,7 @@ class Extraction:
             ctx = ['ST'] if (o.get('kind') == 'ClassTemplateSpecializationDecl' and o.get('name') == 'buffer') else []
             self.ix.walk(o, ctx)
         self.ix.resolve_out_of_line(objs)
+        self.ix.add_foreign_vector()
         self.objs = objs
     def select(self, sel):
         """selector: 'Qualified::name' or 'Qualified::name|<param-type substring>' or an exact C name; returns definition ids"""
